@@ -37,7 +37,7 @@ def codec_pairing(ctx, rep, rule: str) -> None:
     m = fl.module
     # every dict display that builds a flat entry must key it with json.dumps(<list expr>)
     keys = []
-    for fi in [fl] + list(_all_inner(fl)):
+    for fi in [fl] + A.local_callees(repo, fl):
         for n in A.walk_no_nested(fi.node):
             if isinstance(n, ast.Dict) and n.keys:
                 for k in n.keys:
@@ -48,7 +48,7 @@ def codec_pairing(ctx, rep, rule: str) -> None:
         path_list = is_dumps and isinstance(k.args[0], ast.BinOp) and isinstance(k.args[0].op, ast.Add) and isinstance(k.args[0].right, ast.List) and len(k.args[0].right.elts) == 1 and "parent_keys" in _norm(k.args[0].left)
         rep.ob(rule, "flat-key-is-json-of-whole-path", bool(is_dumps and path_list), fi.loc(k), f"flat key expression `{_norm(k)[:80]}` must be json.dumps(parent_keys + [key]): an injective encoding of the whole path that keeps int vs str keys (string concatenation / join / hand-rolled quoting is not injective for keys containing the separator or quotes)", sample=True)
     # recursion extends the path by exactly the child key
-    rec = [c for fi in _all_inner(fl) for c in A.calls(fi.node) if isinstance(c.func, ast.Name) and c.func.id == "flatten_with_parent_keys"]
+    rec = [c for fi in A.local_callees(repo, fl) for c in A.calls(fi.node) if isinstance(c.func, ast.Name) and c.func.id == "flatten_with_parent_keys"]
     ok = any(_norm(A.keyword(c, "parent_keys")) == "parent_keys + [key]" for c in rec)
     rep.ob(rule, "recursion-extends-path-by-child-key", ok, fl.loc(), "nested dicts are flattened with parent_keys + [key]")
     un = repo.func(f"{CKPT_MOD}:unflatten")
@@ -59,16 +59,22 @@ def codec_pairing(ctx, rep, rule: str) -> None:
         tg = loads[0].targets[0]
         star = isinstance(tg, ast.Tuple) and len(tg.elts) == 2 and isinstance(tg.elts[0], ast.Starred) and isinstance(tg.elts[1], ast.Name)
         parents, leaf = (tg.elts[0].value.id, tg.elts[1].id) if star else (None, None)
-        red = [n for n in A.walk_no_nested(un.node) if isinstance(n, ast.Assign) and isinstance(n.value, ast.Call) and A.callee_name(repo, un.module, n.value) == "functools.reduce"]
+        fs = A.folds(repo, un.module, un.node)
         walk_ok = False
         store_ok = False
-        if star and len(red) == 1:
-            r = red[0].value
-            walk_ok = len(r.args) == 3 and isinstance(r.args[0], ast.Lambda) and "setdefault" in _norm(r.args[0].body) and _norm(r.args[1]) == parents and _norm(r.args[2]) == "result"
-            cur = red[0].targets[0].id if isinstance(red[0].targets[0], ast.Name) else None
-            store_ok = any(isinstance(n, ast.Assign) and _norm(n.targets[0]) == f"{cur}[{leaf}]" and _norm(n.value) == "value" for n in A.walk_no_nested(un.node))
+        if star and len(fs) == 1:
+            f = fs[0]
+            # the walk starts at the result root, visits all parents in order and descends (creating on demand)
+            walk_ok = f.step == "$acc.setdefault($0, {})" and _norm(f.iter) == parents and A.expanded(un.node, f.init) == "result"
+            if f.form == "loop":
+                cur = f.result
+            else:
+                st = A.stmt_of(un.node, f.node)
+                cur = st.targets[0].id if isinstance(st, ast.Assign) and st.value is f.node and isinstance(st.targets[0], ast.Name) else None
+            vvar = _item_loop_vars(un)[1]
+            store_ok = cur is not None and any(isinstance(n, ast.Assign) and _norm(n.targets[0]) == f"{cur}[{leaf}]" and _norm(n.value) == vvar and (getattr(n, "lineno", 0) > getattr(f.node, "lineno", 0)) for n in A.walk_no_nested(un.node))
         ok = star and walk_ok and store_ok
-        detail = f"`*parents, leaf = json.loads(key)`: {star}; nesting rebuilt by reduce(setdefault) over all parents from the result root: {walk_ok}; value stored under the leaf key: {store_ok}"
+        detail = f"`*parents, leaf = json.loads(key)`: {star}; nesting rebuilt by a left fold of setdefault over all parents from the result root: {walk_ok}; value stored under the leaf key: {store_ok}"
     rep.ob(rule, "unflatten-inverts-flatten", ok, un.loc(), detail, sample=True)
     rep.assume("injectivity of json.dumps on lists of str/int keys and json.loads being its inverse (JSON semantics) — trusted base")
 
@@ -105,8 +111,8 @@ def kind_tables(ctx, rep, rule: str) -> None:
     repo = ctx.repo
     om = repo.cls(OM)
     sd, ld = om.methods["state_dict"], om.methods["load_state_dict"]
-    save = next(iter(sd.inner.values()))
-    load = next(iter(ld.inner.values()))
+    save = A.worker(repo, sd)
+    load = A.worker(repo, ld)
     wa = _arms(repo, save.module, save.node)
     ra = _arms(repo, load.module, load.node)
     want = [["Tensor"], ["OptimizerModule"], ["dict"], ["list", "tuple", "set"]]
@@ -124,7 +130,7 @@ def kind_tables(ctx, rep, rule: str) -> None:
     # checkpoint utils pair
     ex = repo.func(f"{CKPT_MOD}:extract_state_dict_content")
     up = repo.func(f"{CKPT_MOD}:update_param_state_dict_object")
-    pv = next(iter(ex.inner.values()))
+    pv = A.worker(repo, ex)
     ea = _arms(repo, pv.module, pv.node)
     ua = _arms(repo, up.module, up.node)
     ek = [sorted(n) for k, n, _ in ea if k == "isinstance"]
@@ -138,7 +144,7 @@ def in_place_loading(ctx, rep, rule: str) -> None:
     repo = ctx.repo
     pts = ctx.engine("pts")
     om = repo.cls(OM)
-    load = next(iter(om.methods["load_state_dict"].inner.values()))
+    load = A.worker(repo, om.methods["load_state_dict"])
     arms = {tuple(sorted(n)): a for k, n, a in _arms(repo, load.module, load.node) if k == "isinstance"}
     t_arm = arms.get(("Tensor",))
     old, new = load.params[0], load.params[1]
@@ -156,7 +162,7 @@ def in_place_loading(ctx, rep, rule: str) -> None:
     ok = len(copies) == 1 and _norm(copies[0].func.value) in (f"{vvar}.detach()", vvar) and _norm(copies[0].args[0]) == f"{up.params[1]}[{kvar}]"
     rep.ob(rule, "param-state-tensor-copied-in-place", ok, up.loc(), "update_param_state_dict_object copies the loaded tensor into the existing state tensor")
     # keyed lookup agreement: writer keys sequences by position (enumerate), dicts by key; the reader must look up the same keys
-    save = next(iter(om.methods["state_dict"].inner.values()))
+    save = A.worker(repo, om.methods["state_dict"])
     w_seq = any("enumerate(value)" in _norm(c) for c in A.calls(save.node, nested=True) if isinstance(c.func, ast.Name) and c.func.id == save.name)
     w_dict = any("value.items()" in _norm(c) for c in A.calls(save.node, nested=True) if isinstance(c.func, ast.Name) and c.func.id == save.name)
     s_arm = arms.get(("list", "set", "tuple"))
@@ -187,7 +193,7 @@ def emission(ctx, rep, rule: str) -> None:
     repo = ctx.repo
     om = repo.cls(OM)
     sd = om.methods["state_dict"]
-    save = next(iter(sd.inner.values()))
+    save = A.worker(repo, sd)
     start = [c for c in A.calls(sd.node) if isinstance(c.func, ast.Name) and c.func.id == save.name]
     ok = len(start) == 1 and "self.__dict__.items()" in _norm(start[0])
     rep.ob(rule, "state_dict-starts-from-__dict__", ok, sd.loc(), "state_dict() walks self.__dict__.items() (every attribute)", sample=True)
@@ -200,7 +206,7 @@ def emission(ctx, rep, rule: str) -> None:
     ok = t is not None and any(isinstance(n, ast.Assign) and _norm(n.targets[0]) == "destination[key]" and "value" in _norm(n.value) for s in t.body for n in ast.walk(s))
     rep.ob(rule, "tensor-arm-emits-tensor", ok, save.loc(), "every tensor value is emitted under its key (detached unless keep_vars)")
     lsd = om.methods["load_state_dict"]
-    load = next(iter(lsd.inner.values()))
+    load = A.worker(repo, lsd)
     start = [c for c in A.calls(lsd.node) if isinstance(c.func, ast.Name) and c.func.id == load.name]
     ok = len(start) == 1 and "self.__dict__" in _norm(start[0]) and "state_dict" in _norm(start[0])
     rep.ob(rule, "load_state_dict-starts-from-__dict__", ok, lsd.loc(), "load_state_dict() loads into self.__dict__ from the given state dict")
@@ -229,8 +235,8 @@ def leafless_not_required(ctx, rep, rule: str) -> None:
             ok = skips and negated and f"{{{kvar}: {vvar}}}" in _norm(t.test)
         rep.ob(rule, "missing-key-raise-only-for-values-with-leaves", ok, up.loc(r), "the KeyError for a key missing from the loaded state must be control-dependent on the current value contributing at least one flattened entry (`if not flatten(extract_state_dict_content({k: v})): continue`): flatten() drops leaf-less sub-dictionaries, so a block without Kronecker factors could otherwise not load its own checkpoint", sample=True)
     fl = repo.func(f"{CKPT_MOD}:flatten")
-    red = [c for fi in _all_inner(fl) for c in A.calls(fi.node) if A.callee_name(repo, fl.module, c) == "functools.reduce"]
-    ok = len(red) == 1 and len(red[0].args) == 3 and _norm(red[0].args[2]) == "{}"
+    fs = [f for fi in A.local_callees(repo, fl) for f in A.folds(repo, fi.module, fi.node)]
+    ok = len(fs) == 1 and _norm(fs[0].init) == "{}" and fs[0].step.startswith("$acc | ") and _norm(fs[0].iter).endswith(".items()")
     rep.ob(rule, "flatten-folds-from-empty-dict", ok, fl.loc(), "flatten folds the children's entries with | starting from {} (a sub-dictionary without leaves contributes nothing)")
 
 
